@@ -36,7 +36,7 @@ def gen(rng, tier):
     ds = G.all_dfas(2, 'a') + G.all_dfas(2, 'ab') + G.all_dfas(1, 'ab')
     ds += rng.sample(G.all_dfas(3, 'a'), 80) if quick else G.all_dfas(3, 'a')
     ds += [G.random_dfa(rng, rng.randint(1, 5), rng.choice(['a', 'ab', '', '01', '1', 'a1', '_ε'])) for _ in range(120 if quick else 3000)]
-    ds += [dict(d, Sigma=['0', '1'], delta=[[q, {'a': '0', 'b': '1'}[a], t] for q, a, t in d['delta']]) for d in rng.sample(G.all_dfas(2, 'ab'), 40 if quick else 256)]
+    ds += [dict(d, Sigma=['0', '1'], delta=[[q, {'a': '0', 'b': '1'}[a], t] for q, a, t in d['delta']]) for d in (rng.sample(G.all_dfas(2, 'ab'), 40) if quick else G.all_dfas(2, 'ab'))]
     for d in ds:
         cases.append({'kind': 'dfa', 'D': d})
     return cases
